@@ -3130,7 +3130,18 @@ static struct jbl_node* _jbl_merge_patch_node(
           return 0;
         }
         memset(target, 0, sizeof(*target));
-        target->key = strdup(patch->key);
+        { // the name may hold zero bytes: copy klidx bytes, not a C string
+          size_t klen = patch->klidx > 0 ? (size_t) patch->klidx : 0;
+          char *key = malloc(klen + 1);
+          if (!key) {
+            free(target);
+            *rcp = iwrc_set_errno(IW_ERROR_ALLOC, errno);
+            return 0;
+          }
+          memcpy(key, patch->key, klen);
+          key[klen] = '\0';
+          target->key = key;
+        }
       }
       target->type = JBV_OBJECT;
       target->klidx = patch->klidx;
@@ -3152,7 +3163,7 @@ static struct jbl_node* _jbl_merge_patch_node(
         struct jbl_node *node = target->child;
         while (node) {
           next = node->next;
-          if ((node->klidx == patch->klidx) && !strncmp(node->key, patch->key, node->klidx)) {
+          if ((node->klidx == patch->klidx) && !memcmp(node->key, patch->key, node->klidx)) { // names may hold a zero byte
             _jbn_remove_item(target, node);
             if (!pool) {
               jbn_visit2(node, 0, _jbn_allocated_destroy_visitor);
@@ -3164,7 +3175,7 @@ static struct jbl_node* _jbl_merge_patch_node(
       } else {
         struct jbl_node *node = target->child;
         while (node) {
-          if ((node->klidx == patch->klidx) && !strncmp(node->key, patch->key, node->klidx)) {
+          if ((node->klidx == patch->klidx) && !memcmp(node->key, patch->key, node->klidx)) { // names may hold a zero byte
             if (pool) {
               struct jbl_node *src = _jbl_merge_patch_node(node, patch, pool, rcp);
               if (src != node) {
